@@ -119,9 +119,11 @@ func genContent(open xml.Name, depth int, budget *int) {
 			verifScript = append(verifScript, xml.Directive([]byte(symLetters("directive", 1))))
 		case 5:
 			name := symName("child")
-			st := xml.StartElement{Name: name}
+			// the real decoder reports namespace declarations (and
+			// undeclarations, xmlns="") among the attributes
+			st := xml.StartElement{Name: name, Attr: []xml.Attr{{Name: xml.Name{Local: "xmlns"}, Value: name.Space}}}
 			if vrt.Choose("child-hasattr", 2) == 1 {
-				st.Attr = []xml.Attr{{Name: symName("attr"), Value: symLetters("attr-value", 1)}}
+				st.Attr = append(st.Attr, xml.Attr{Name: symName("attr"), Value: symLetters("attr-value", 1)})
 			}
 			verifScript = append(verifScript, st)
 			*budget -= 2
@@ -171,8 +173,9 @@ func tokenEq(a, b xml.Token) bool {
 func VerifH_C15_Capture() {
 	verifScript, verifScriptPos, verifEncodedTokens = nil, 0, nil
 	start := xml.StartElement{Name: symName("root")}
+	start.Attr = []xml.Attr{{Name: xml.Name{Local: "xmlns"}, Value: start.Name.Space}}
 	if vrt.Choose("root-hasattr", 2) == 1 {
-		start.Attr = []xml.Attr{{Name: symName("rootattr"), Value: symLetters("rootattr-value", 1)}}
+		start.Attr = append(start.Attr, xml.Attr{Name: symName("rootattr"), Value: symLetters("rootattr-value", 1)})
 	}
 	budget := vrt.Param("maxtokens", 5)
 	genContent(start.Name, 1, &budget)
@@ -264,8 +267,26 @@ func VerifH_C15_Capture() {
 		vrt.Assert(err == nil, "MarshalXML of a captured value succeeds")
 		vrt.Assert(len(verifEncodedTokens) == len(want), "MarshalXML emits one token per captured token")
 		if len(verifEncodedTokens) == len(want) {
+			// Namespace declarations that the encoder derives from the
+			// element name anyway (xmlns equal to the element's own
+			// namespace, or a redundant xmlns="") are not compared; an
+			// undeclaration xmlns="" below a non-empty default namespace
+			// is needed and must be emitted.
+			var inherited []string
+			cur := ""
 			for i := range want {
-				vrt.Assert(tokenEq(verifEncodedTokens[i], want[i]), "MarshalXML emits the captured tokens in order")
+				g, w := verifEncodedTokens[i], want[i]
+				if ws, ok := w.(xml.StartElement); ok {
+					if gs, ok := g.(xml.StartElement); ok {
+						g, w = verifNeededAttrs(gs, cur), verifNeededAttrs(ws, cur)
+					}
+					inherited = append(inherited, cur)
+					cur = ws.Name.Space
+				} else if _, ok := w.(xml.EndElement); ok && len(inherited) > 0 {
+					cur = inherited[len(inherited)-1]
+					inherited = inherited[:len(inherited)-1]
+				}
+				vrt.Assert(tokenEq(g, w), "MarshalXML emits the captured tokens in order")
 			}
 		}
 	} else {
@@ -370,6 +391,9 @@ func verifSerialise(start xml.StartElement, script []xml.Token, upto int) string
 	printStart := func(st xml.StartElement) {
 		sb.WriteString("<" + st.Name.Local + " xmlns=\"" + st.Name.Space + "\"")
 		for i, a := range st.Attr {
+			if a.Name.Space == "" && a.Name.Local == "xmlns" {
+				continue
+			}
 			if a.Name.Space != "" {
 				p := "p" + string(rune('a'+i))
 				sb.WriteString(" xmlns:" + p + "=\"" + a.Name.Space + "\" " + p + ":" + a.Name.Local + "=\"" + a.Value + "\"")
@@ -400,4 +424,19 @@ func verifSerialise(start xml.StartElement, script []xml.Token, upto int) string
 		}
 	}
 	return sb.String()
+}
+
+// verifNeededAttrs drops the namespace declarations the encoder derives
+// itself; inheritedDefault is the default namespace in scope.
+func verifNeededAttrs(st xml.StartElement, inheritedDefault string) xml.StartElement {
+	out := xml.StartElement{Name: st.Name}
+	for _, a := range st.Attr {
+		if a.Name.Space == "" && a.Name.Local == "xmlns" {
+			if !(a.Value == "" && inheritedDefault != "") {
+				continue
+			}
+		}
+		out.Attr = append(out.Attr, a)
+	}
+	return out
 }
